@@ -21,7 +21,7 @@ ASSUMPTIONS = [
     "parse(text) / render(document) are uninterpreted: what the mmcif tokenizer/writer do at text level (quoting, multi-word and '?'/'.' values) is not decided deductively - the bounded check reads results back through the same library",
     "text-mode temp-file I/O is transparent: the reader sees exactly the string written and flushed by seek(0), f.read() returns exactly what writeFile wrote (UTF-8-encodable content, no newline translation)",
     "definition ndist_definition (contracts.transformer_c LEMMAS): ndist(D,k,i,n) = number of different values among the first n cells of the item, by recursion on n",
-    "definition firstpos_definition: firstpos(D,k,i,x) = least row of the item holding x (least-number principle); only used as the explicit witness in 'mapping keys are old values'",
+    "definition firstpos_definition: firstpos(D,k,i,x) = least row of the item holding x (least-number principle: it holds x and is <= every row holding x); used for 'seen in an earlier row' (firstpos < r), in the definition of ndist, and as the explicit witness in 'mapping keys are old values'",
     "requires wellformed(parse(file_content)): item names of a category pairwise different and every row has one cell per item (the reader itself can return short rows for a truncated loop)",
     "requires enough_values: ndist(prefix) <= len(values) for EVERY prefix of the rows - equivalent to len(values) >= number of distinct values because ndist is monotone in n (monotonicity itself is not proved); IndexError is excluded under it (raises = [])",
     "heap frame: the contents of pre-existing StrList/RowList/Row model objects are in `modifies` (no such object can be passed in - the parameters are strings; 'everything else untouched' is proved on the written document, clause other-categories-untouched)",
@@ -34,9 +34,10 @@ EXPLANATION = (
     "(1) otherwise result == render(W); (2) W has the same blocks and categories in the same order; (3) every other category of every block keeps items, "
     "row count/order/lengths and all cells; (4) items of the category unchanged except ONE appended target item when it was absent; (5) same row count, every "
     "row has one cell per item (+1 for a new item); (6) all non-target cells kept; (7) target cell == source cell of the same input row. Safety: no IndexError/"
-    "ValueError/AttributeError. replace_value [150]: (0) missing => (input, empty mapping); (1)-(3) as above; (4) items and row shape kept; (5) other cells kept; "
+    "ValueError/AttributeError. replace_value [148]: (0) missing => (input, empty mapping); (1)-(3) as above; (4) items and row shape kept; (5) other cells kept; "
     "(6) every old value is a key and the new cell is its image under the RETURNED mapping; (7) every key is an old value (witness row firstpos); (8) first-seen: a "
-    "value first seen in row r maps to values[ndist(r)] (= number of distinct values before) and len(mapping) == number of distinct values; (9) injective when the "
+    "value whose first row is r (firstpos(value) == r, i.e. not seen in an earlier row) maps to values[ndist(r)] (= number of distinct values before) and "
+    "len(mapping) == number of distinct values; (9) injective when the "
     "characters of `values` are distinct. The proofs go through the aliasing of the attribute list and the in-place mutated rows: data[0].replace(DataCategory("
     "category_obj, ...)) is modelled faithfully and is a no-op (object passed as name); a variant passing the category NAME (effective replace) also verifies. "
     "main [71]: call-site obligations call[..]->copy_from_to.requires.1-4 / replace_value.requires.2-5 = the first argument of the library call is the CONTENT of "
